@@ -311,6 +311,9 @@ Qed.
 
 End Enc.
 
+Print Assumptions TVg_find_coord_refines.
+Print Assumptions TVg_find_random_sample_refines.
+
 Lemma VInt_eq : forall a b, py_eq (VInt a) (VInt b) = (a =? b). Proof. reflexivity. Qed.
 Lemma VInt_nu : forall a, VInt a <> VUnbound. Proof. discriminate. Qed.
 
